@@ -16,9 +16,10 @@ import Driver.HStdNum
 import Driver.HMarks
 import Driver.HMsgpack
 import Driver.HJsonVal
+import Driver.HStdlib
 open CtyModel
 
-def handlers : List Handler := [handleTy, handleVal, handleNum, handleOps, handleFunc, handleSet, handleRefine, handleGocty, handleStd, handleStdNum, handleMarks, handleMsgpack, handleJsonVal]
+def handlers : List Handler := [handleTy, handleVal, handleNum, handleOps, handleFunc, handleSet, handleRefine, handleGocty, handleStd, handleStdNum, handleMarks, handleMsgpack, handleJsonVal, handleStdlib]
 
 def handle (op : String) (args : List Sexp) : String :=
   match handlers.findSome? (fun h => h op args) with
